@@ -185,7 +185,10 @@ def run(ctx, rep):
                 rep.bad("R7.1", "R7.1|flow|%s→%s" % (p.replace(CRV, ""), cal.replace(CRV, "")),
                         "%s passes %s as the checked word of %s" % (p.replace(CRV, ""), show_origin(o), cal.replace(CRV, "")), p)
     # the root: do_payload_checks hands each chunk's first 10 bytes to check()
-    dpc = "fastpasta::analyze::validators::its::lib::do_payload_checks::{closure#0}"
+    # (the call sits in the `for_each` closure or, written as a loop, in do_payload_checks itself)
+    dpf = "fastpasta::analyze::validators::its::lib::do_payload_checks"
+    cands_ = [q for q in [dpf + "::{closure#0}", dpf] if q in f.fns and any(cal == CRV + "check" for bb, t, cal, c in cg.body(q).calls())]
+    dpc = cands_[0] if cands_ else dpf + "::{closure#0}"
     if dpc in f.fns:
         b = cg.body(dpc)
         cs = [(bb, t) for bb, t, cal, c in b.calls() if cal == CRV + "check"]
@@ -193,7 +196,7 @@ def run(ctx, rep):
         for bb, t in cs:
             o = b.origin(t["args"][1])
             s = show_origin(o)
-            rep.check("index" in s.lower() and root_param(o[2][0] if o[0] == "call" else o) is not None or "arg2" in s, "R7.1", "R7.1|root|slice",
+            rep.check("index" in s.lower() and (root_param(o[2][0] if o[0] == "call" else o) is not None or "next(" in s) or "arg2" in s, "R7.1", "R7.1|root|slice",
                       "check() receives a range-slice of the chunk parameter: %s" % s[:120], dpc)
     else:
         rep.missing("R7.1", dpc)
